@@ -9,6 +9,7 @@ T = {  # case name -> (Rust type, description)
     'b0': ('c13::Bytes<0>', 'Vec<u8> x0'), 'b3': ('c13::Bytes<3>', 'Vec<u8> x3'), 'b8': ('c13::Bytes<8>', 'Vec<u8> x8'), 'b9': ('c13::Bytes<9>', 'Vec<u8> x9'),
     's0': ('c13::Str<0>', 'String x0'), 's3': ('c13::Str<3>', 'String x3'), 's9': ('c13::Str<9>', 'String x9'),
     'on': ('c13::Opt<false, 0>', 'Option<Vec<u64>> None'), 'o0': ('c13::Opt<true, 0>', 'Some(Vec<u64> x0)'), 'o2': ('c13::Opt<true, 2>', 'Some(Vec<u64> x2)'),
+    'ri65': ('c13::RawI<65>', 'RawVector 65 bits (+int)'), 'ri128': ('c13::RawI<128>', 'RawVector 128 bits (+int)'),
     'r0': ('c13::Raw<0>', 'RawVector 0 bits'), 'r65': ('c13::Raw<65>', 'RawVector 65 bits'), 'r128': ('c13::Raw<128>', 'RawVector 128 bits'), 'r3': ('c13::Raw<3>', 'RawVector 3 bits'),
     'i0': ('c13::Int<7, 0>', 'IntVector w7 x0'), 'i3': ('c13::Int<13, 3>', 'IntVector w13 x3'), 'i64': ('c13::Int<64, 3>', 'IntVector w64 x3'), 'i1': ('c13::Int<1, 2>', 'IntVector w1 x2'),
 }
@@ -22,20 +23,30 @@ def ds(*ks):
     return ' | '.join(T[k][1] for k in ks)
 
 
-COMMON = dict(stubs=FS, models=MODEL, unwind=34, cap=600, mem=8)
+COMMON = dict(stubs=FS, models=MODEL, unwind=26, cap=600, mem=12)
 
-# tiling: every view at its structure start == load, map_offset+map_len == next start, last one ends at map.len()
+# tiling: every view at its structure start == reference value, map_offset+map_len == next start, last one ends at map.len().
+# reference value = the serialized value; '_ld' instances: what load() returns from the same bytes
 TILE3 = [(('v3', 'b9', 'r0'), 'quick'), (('r65', 'i3', 'v0'), 'quick'), (('p2', 's9', 'on'), 'quick'), (('o2', 'i64', 'b0'), 'quick'),
-         (('i0', 'on', 'i0'), 'quick'), (('s3', 'r128', 's0'), 'quick'), (('b8', 'o0', 'p0'), 'quick'),
+         (('i0', 'on', 'i0'), 'quick'), (('s3', 'ri128', 's0'), 'quick'), (('b8', 'o0', 'p0'), 'quick'),
          (('v1', 'p3', 'o0'), 'thorough'), (('i1', 'r3', 'i0'), 'thorough'), (('b3', 'v3', 'b0'), 'thorough'), (('on', 'on', 'v0'), 'thorough'),
-         (('r0', 'r0', 'r0'), 'thorough'), (('i64', 'i64', 'i0'), 'thorough'), (('p3', 'p3', 'p0'), 'thorough'), (('s9', 'b9', 's0'), 'thorough')]
+         (('r0', 'r0', 'r0'), 'thorough'), (('i64', 'i64', 'i0'), 'thorough'), (('p3', 'p3', 'p0'), 'thorough'), (('s9', 'b9', 's0'), 'thorough'),
+         (('ri65', 'v0', 'b0'), 'thorough')]
 for ks, tier in TILE3:
-    inst(P, 'c13_tile_%s' % '_'.join(ks), 'c13::tile3::<%s>()' % ty(*ks), tier=tier, desc='file = %s: views == load, views tile the file' % ds(*ks),
+    inst(P, 'c13_tile_%s' % '_'.join(ks), 'c13::tile3::<%s>(false)' % ty(*ks), tier=tier, desc='file = %s: views == serialized values, views tile the file' % ds(*ks),
          shape={'file': [T[k][1] for k in ks]}, **COMMON)
 TILE2 = [(('i3', 'r0'), 'quick'), (('o2', 'on'), 'quick'), (('r65', 'v0'), 'thorough'), (('b9', 's0'), 'thorough'), (('p2', 'i0'), 'thorough')]
 for ks, tier in TILE2:
-    inst(P, 'c13_tile_%s' % '_'.join(ks), 'c13::tile2::<%s>()' % ty(*ks), tier=tier, desc='file = %s: views == load, views tile the file' % ds(*ks),
+    inst(P, 'c13_tile_%s' % '_'.join(ks), 'c13::tile2::<%s>(false)' % ty(*ks), tier=tier, desc='file = %s: views == serialized values, views tile the file' % ds(*ks),
          shape={'file': [T[k][1] for k in ks]}, **COMMON)
+LOAD3 = [(('v3', 'b9', 'r0'), 'quick'), (('p2', 's9', 'on'), 'quick'), (('r65', 'i3', 'v0'), 'thorough'), (('o2', 'i64', 'b0'), 'thorough'), (('s3', 'r128', 's0'), 'thorough')]
+for ks, tier in LOAD3:
+    inst(P, 'c13_tile_ld_%s' % '_'.join(ks), 'c13::tile3::<%s>(true)' % ty(*ks), tier=tier, desc='file = %s: views == load() of the same bytes, views tile the file' % ds(*ks),
+         shape={'file': [T[k][1] for k in ks], 'load': True}, **COMMON)
+LOAD2 = [(('i3', 'r0'), 'quick'), (('r65', 'o2'), 'quick'), (('i64', 'on'), 'thorough')]
+for ks, tier in LOAD2:
+    inst(P, 'c13_tile_ld_%s' % '_'.join(ks), 'c13::tile2::<%s>(true)' % ty(*ks), tier=tier, desc='file = %s: views == load() of the same bytes, views tile the file' % ds(*ks),
+         shape={'file': [T[k][1] for k in ks], 'load': True}, **COMMON)
 
 # every offset >= file length (all usize) is refused, for each view type
 for k, tier in (('v3', 'quick'), ('p2', 'quick'), ('b9', 'quick'), ('s3', 'quick'), ('o2', 'quick'), ('on', 'thorough'), ('r65', 'quick'), ('i3', 'quick'), ('i0', 'thorough')):
@@ -43,7 +54,7 @@ for k, tier in (('v3', 'quick'), ('p2', 'quick'), ('b9', 'quick'), ('s3', 'quick
          desc='file = %s: view of the first type at any offset >= map.len() (all usize) is Err, no panic' % ds(k, 'v0'), shape={'file': [T[k][1], T['v0'][1]]}, **COMMON)
 
 # file cut at every 8-byte boundary
-TRUNC = [(('v3', 'p2'), 'quick'), (('b9', 's9'), 'quick'), (('o2', 'r65'), 'quick'), (('i3', 'o2'), 'quick'), (('r128', 'i64'), 'quick'), (('s9', 'b9'), 'quick'), (('p3', 'v3'), 'quick'),
+TRUNC = [(('v3', 'p2'), 'quick'), (('b9', 's9'), 'quick'), (('o2', 'r65'), 'quick'), (('i3', 'o2'), 'quick'), (('r128', 'i64'), 'quick'), (('s9', 'b9'), 'thorough'), (('p3', 'v3'), 'thorough'),
          (('i64', 'r128'), 'thorough'), (('o2', 'o2'), 'thorough'), (('r65', 'on'), 'thorough'), (('i1', 'b3'), 'thorough')]
 for ks, tier in TRUNC:
     inst(P, 'c13_trunc_%s' % '_'.join(ks), 'c13::truncated::<%s>()' % ty(*ks), tier=tier,
@@ -51,6 +62,7 @@ for ks, tier in TRUNC:
          shape={'file': [T[k][1] for k in ks]}, **COMMON)
 
 extra(P, assumptions=[
+    'views are compared with the values that were serialized; the *_ld instances compare with what load() returns from the same bytes instead (C06 proves load(serialize(x)) == x for the same types and shapes)',
     'file content = bytes produced by the real Serialize::serialize of 2-3 values of concrete shape and symbolic content (<= 24 words), handed to the OS model as the file; MemoryMap::new runs on the std::fs stubs and models/mmap_model.c exactly as in C18 (file always openable, mapping never refused here)',
     'the mapping object ends at the file length rounded up to whole words (not at the page end): any access past the file through a view is reported',
     'String content restricted to ASCII (stub set utf8 replaces std::str::from_utf8 / String::from_utf8)',
